@@ -1,5 +1,5 @@
 """C05 - glob and plain patterns: whole-name match, dispatch, inert fast-reject."""
-from common import Case, enc
+from common import Case, enc, dec
 import pgen
 
 PID = "C05"
@@ -62,6 +62,16 @@ def generate(rng, tier):
         for nme in names:
             cases.append(Case("pat.match", [enc(p), enc(nme)], meta={"p": p, "n": nme}))
     return cases
+
+
+def property_fails(c, oi, om, os_):
+    """a disagreement on a pattern with '**' is outside C05's subset (no '**'): the correspondence is broken there, but no
+    input of the property is shown to fail"""
+    try:
+        p = "".join(chr(x) for x in dec(c.args[0]))
+    except Exception:
+        return True
+    return "**" not in p
 
 
 def nontrivial(c):
